@@ -96,6 +96,49 @@ def facts_at(mod: Module, fn: ast.AST, node: ast.AST) -> list[tuple[ast.expr, bo
     out: list[tuple[ast.expr, bool]] = []
     for t, pol in raw:
         out.extend(split_fact(t, pol))
+    return _with_flag_facts(mod, fn, out)
+
+
+def _with_flag_facts(mod: Module, fn: ast.AST, facts: list[tuple[ast.expr, bool]], depth: int = 3) -> list[tuple[ast.expr, bool]]:
+    """a fact about a flag - a local that fn binds in one place only, by a plain assignment outside any loop - says the same about the
+    expression the flag was computed from, as it was when the flag was computed (`ok = a and not b ... if not ok: return` is
+    `if not (a and not b): return`).  Carried over only if no local that expression reads is bound again at or after the
+    assignment (attributes are the business of the rule that reads the fact, as they are for a test written out in the `if`)."""
+    if depth <= 0 or not isinstance(fn, (ast.FunctionDef, ast.AsyncFunctionDef)):
+        return facts
+    out = list(facts)
+    added: list[tuple[ast.expr, bool]] = []
+    for e, pol in facts:
+        if not (isinstance(e, ast.Name) and isinstance(e.ctx, ast.Load)) or e.id in params(fn):
+            continue
+        stores = [n for n in own_nodes(fn) if isinstance(n, ast.Name) and n.id == e.id and isinstance(n.ctx, (ast.Store, ast.Del))]
+        if len(stores) != 1:
+            continue
+        st = mod.parent.get(id(stores[0]))
+        if isinstance(st, ast.Assign):
+            if not (len(st.targets) == 1 and st.targets[0] is stores[0]):
+                continue
+        elif not (isinstance(st, ast.AnnAssign) and st.target is stores[0] and st.value is not None):
+            continue
+        if st.lineno >= getattr(e, "lineno", 0):
+            continue
+        in_loop = False
+        for p in mod.parents(st):
+            if isinstance(p, (ast.While, ast.For, ast.AsyncFor)):
+                in_loop = True
+            if p is fn:
+                break
+        if in_loop:
+            continue
+        val = st.value
+        read = _names(val)
+        if any(isinstance(n, ast.Name) and n.id in read and isinstance(n.ctx, (ast.Store, ast.Del)) and n.lineno >= st.lineno for n in own_nodes(fn)):
+            continue
+        if any(isinstance(n, (ast.NamedExpr, ast.Await, ast.Yield, ast.YieldFrom)) for n in ast.walk(val)):
+            continue
+        added.extend(split_fact(val, pol))
+    if added:
+        out.extend(_with_flag_facts(mod, fn, [a for a in added if not any(a[0] is f_[0] for f_ in facts)], depth - 1))
     return out
 
 
@@ -391,18 +434,14 @@ def arg_of(call: ast.Call, fn: ast.AST, pname: str) -> Optional[ast.expr]:
     return None
 
 
-def enclosing_validator(mod: Module, fn: ast.AST, call: ast.Call, arg: ast.expr, accept=None) -> Optional[tuple[ast.If, str]]:
-    """the innermost `if self.<V>(<same arg>):` whose body holds `call` (and, if given, accept(V) holds): (the if, V)"""
-    child: ast.AST = call
-    for p in mod.parents(call):
-        if isinstance(p, ast.If) and any(child is s for s in p.body):
-            t = p.test
-            if isinstance(t, ast.Call) and isinstance(t.func, ast.Attribute) and isinstance(t.func.value, ast.Name) and t.func.value.id == "self" \
-                    and t.args and norm(t.args[0]) == norm(arg) and (accept is None or accept(t.func.attr)):
-                return p, t.func.attr
-        if p is fn:
-            break
-        child = p
+def enclosing_validator(mod: Module, fn: ast.AST, call: ast.Call, arg: ast.expr, accept=None) -> Optional[tuple[ast.expr, str]]:
+    """`self.<V>(<same arg>)` is known to have answered true wherever `call` is made (and, if given, accept(V) holds): (the test, V).
+    Known in the sense of facts_at: the call sits in the body of `if self.V(x):`, in the else branch of `if not self.V(x):`, after an
+    `if not self.V(x): return`, behind `self.V(x) and ...`, under a flag computed from it - all the same."""
+    for t, pol in facts_at(mod, fn, call):
+        if pol and isinstance(t, ast.Call) and isinstance(t.func, ast.Attribute) and isinstance(t.func.value, ast.Name) and t.func.value.id == "self" \
+                and t.args and norm(t.args[0]) == norm(arg) and (accept is None or accept(t.func.attr)):
+            return t, t.func.attr
     return None
 
 
@@ -462,71 +501,232 @@ def _binding_of(mod: Module, fn: Optional[ast.AST], name: str) -> Optional[ast.e
     return None
 
 
-def _char_key(e: ast.expr) -> Optional[str]:
-    """the character a key of a translation table stands for: 34, ord('"')"""
-    if isinstance(e, ast.Constant) and isinstance(e.value, int) and not isinstance(e.value, bool) and 0 <= e.value < 0x110000:
-        return chr(e.value)
-    if isinstance(e, ast.Call) and isinstance(e.func, ast.Name) and e.func.id == "ord" and len(e.args) == 1 and isinstance(e.args[0], ast.Constant) \
-            and isinstance(e.args[0].value, str) and len(e.args[0].value) == 1:
-        return e.args[0].value
-    return None
+class _Unknown(Exception):
+    """the expression is not a constant the evaluator can fold"""
 
 
-def _table_value(e: ast.expr) -> Optional[str]:
-    if isinstance(e, ast.Constant):
-        if isinstance(e.value, str):
-            return e.value
-        if e.value is None:
-            return ""  # the character is deleted
-        if isinstance(e.value, int) and not isinstance(e.value, bool) and 0 <= e.value < 0x110000:
-            return chr(e.value)
-    return None
+_PURE_BUILTINS = {"dict": dict, "tuple": tuple, "list": list, "set": set, "frozenset": frozenset, "zip": zip, "ord": ord, "chr": chr, "sorted": sorted, "reversed": reversed,
+                  "enumerate": enumerate, "range": range, "len": len, "str": str, "int": int, "min": min, "max": max}
+_PURE_METHODS = {"items", "keys", "values", "copy", "join", "lower", "upper"}
+_CONST_TYPES = (str, bytes, int, bool, type(None), tuple, list, dict, set, frozenset)
+_MAX_STEPS = 0x120000
 
 
-def char_table(mod: Module, fn: Optional[ast.AST], e: ast.expr, str_keys: bool, depth: int = 4) -> Optional[dict[str, str]]:
-    """the constant character -> replacement map an expression evaluates to, or None if that cannot be told:
-    a dict display, `str.maketrans(<dict>)`, `str.maketrans("abc", "xyz"[, "deleted"])`, `dict(<display>)`, or a name bound once to one of these
-    (in the function or at module level).  `str_keys`: one-character string keys count (a table handed to str.translate *directly* is looked
-    up by code point, so there they do not; through str.maketrans, or in a table indexed with the characters themselves, they do)."""
-    if depth <= 0:
+def _imported_binding(repo: Optional[Repo], mod: Module, name: str) -> Optional[tuple[Module, str]]:
+    """(module, name there) of a name that `mod` imports at top level from a module of the package"""
+    if repo is None:
         return None
-    if isinstance(e, ast.Name):
-        v = _binding_of(mod, fn, e.id)
-        return char_table(mod, fn, v, str_keys, depth - 1) if v is not None else None
-    if isinstance(e, ast.Dict):
-        out: dict[str, str] = {}
-        for k, v in zip(e.keys, e.values):
-            if k is None:
-                return None
-            key = _char_key(k)
-            if key is None and isinstance(k, ast.Constant) and isinstance(k.value, str):
-                if not str_keys:
-                    continue  # never matched by str.translate
-                if len(k.value) != 1:
-                    return None
-                key = k.value
-            val = _table_value(v)
-            if key is None or val is None:
-                return None
-            out[key] = val
-        return out
-    if isinstance(e, ast.Call) and not e.keywords:
-        fname = norm(e.func)
-        if fname == "dict" and len(e.args) == 1:
-            return char_table(mod, fn, e.args[0], str_keys, depth - 1)
-        if isinstance(e.func, ast.Attribute) and e.func.attr == "maketrans" and (norm(e.func.value) in ("str", "bytes") or isinstance(e.func.value, ast.Constant)):
-            if len(e.args) == 1:
-                return char_table(mod, fn, e.args[0], True, depth - 1)
-            if len(e.args) in (2, 3) and all(isinstance(a, ast.Constant) and isinstance(a.value, str) for a in e.args):
-                a, b = e.args[0].value, e.args[1].value  # type: ignore[attr-defined]
-                if len(a) != len(b):
-                    return None
-                out = dict(zip(a, b))
-                if len(e.args) == 3:
-                    for ch in e.args[2].value:  # type: ignore[attr-defined]
-                        out[ch] = ""
-                return out
+    for st in mod.tree.body:
+        if isinstance(st, ast.ImportFrom):
+            for a in st.names:
+                if (a.asname or a.name) == name:
+                    base = st.module or ""
+                    if st.level:
+                        parts = mod.name.split(".")
+                        if not mod.rel.endswith("__init__.py"):
+                            parts = parts[:-1]
+                        parts = parts[: len(parts) - (st.level - 1)]
+                        base = ".".join(parts + ([st.module] if st.module else []))
+                    if base in repo.modules:
+                        return repo.modules[base], a.name
     return None
+
+
+def const_eval(mod: Module, fn: Optional[ast.AST], e: ast.AST, repo: Optional[Repo] = None, env: Optional[dict] = None, depth: int = 10, _steps: Optional[list] = None):
+    """the value of an expression built from constants only: displays, names bound once (in fn, at module level, or imported from a module of
+    the package where they are bound once), a closed set of side-effect-free builtins (dict, zip, ord, chr, str.maketrans, ...) and methods
+    (items, keys, values, join), comprehensions over such values, + | % on them, f-strings, conditional expressions.  Nothing of the analysed
+    package is executed: only those builtins, on constants.  Raises _Unknown for anything else."""
+    steps = _steps if _steps is not None else [0]
+    env = env or {}
+
+    def tick(n: int = 1) -> None:
+        steps[0] += n
+        if steps[0] > _MAX_STEPS:
+            raise _Unknown("too large")
+
+    def ev(x: ast.AST, env: dict, d: int):
+        tick()
+        if d <= 0:
+            raise _Unknown("too deep")
+        if isinstance(x, ast.Constant):
+            return x.value
+        if isinstance(x, ast.Name):
+            if x.id in env:
+                return env[x.id]
+            b = _binding_of(mod, fn, x.id)
+            if b is not None:
+                # (a module-level binding is evaluated at module level: the locals of fn are not in its scope)
+                return const_eval(mod, fn if fn is not None and local_defs(fn, x.id) else None, b, repo, None, d - 1, steps)
+            imp = _imported_binding(repo, mod, x.id) if not any(isinstance(n, ast.Name) and n.id == x.id and isinstance(n.ctx, (ast.Store, ast.Del)) for n in ast.walk(mod.tree)) else None
+            if imp is not None:
+                b = _binding_of(imp[0], None, imp[1])
+                if b is not None:
+                    return const_eval(imp[0], None, b, repo, None, d - 1, steps)
+            raise _Unknown(x.id)
+        if isinstance(x, (ast.Tuple, ast.List, ast.Set)):
+            vals: list = []
+            for el in x.elts:
+                if isinstance(el, ast.Starred):
+                    vals.extend(ev(el.value, env, d - 1))
+                else:
+                    vals.append(ev(el, env, d - 1))
+            return tuple(vals) if isinstance(x, ast.Tuple) else vals if isinstance(x, ast.List) else set(vals)
+        if isinstance(x, ast.Dict):
+            out: dict = {}
+            for k, v in zip(x.keys, x.values):
+                if k is None:
+                    sub = ev(v, env, d - 1)
+                    if not isinstance(sub, dict):
+                        raise _Unknown("** of a non-dict")
+                    out.update(sub)
+                else:
+                    out[ev(k, env, d - 1)] = ev(v, env, d - 1)
+            return out
+        if isinstance(x, ast.IfExp):
+            return ev(x.body, env, d - 1) if ev(x.test, env, d - 1) else ev(x.orelse, env, d - 1)
+        if isinstance(x, ast.UnaryOp) and isinstance(x.op, (ast.Not, ast.USub)):
+            v = ev(x.operand, env, d - 1)
+            return (not v) if isinstance(x.op, ast.Not) else -v
+        if isinstance(x, ast.BoolOp):
+            v = None
+            for sub_ in x.values:
+                v = ev(sub_, env, d - 1)
+                if bool(v) != isinstance(x.op, ast.And):
+                    return v
+            return v
+        if isinstance(x, ast.Compare) and len(x.ops) == 1:
+            a, b = ev(x.left, env, d - 1), ev(x.comparators[0], env, d - 1)
+            op = x.ops[0]
+            table = {ast.Eq: lambda: a == b, ast.NotEq: lambda: a != b, ast.In: lambda: a in b, ast.NotIn: lambda: a not in b, ast.Lt: lambda: a < b, ast.LtE: lambda: a <= b,
+                     ast.Gt: lambda: a > b, ast.GtE: lambda: a >= b, ast.Is: lambda: a is b, ast.IsNot: lambda: a is not b}
+            if type(op) not in table:
+                raise _Unknown("comparison")
+            return table[type(op)]()
+        if isinstance(x, ast.BinOp) and isinstance(x.op, (ast.Add, ast.BitOr, ast.Mod, ast.Sub)):
+            a, b = ev(x.left, env, d - 1), ev(x.right, env, d - 1)
+            return a + b if isinstance(x.op, ast.Add) else a | b if isinstance(x.op, ast.BitOr) else a % b if isinstance(x.op, ast.Mod) else a - b
+        if isinstance(x, ast.Subscript) and not isinstance(x.slice, ast.Slice):
+            return ev(x.value, env, d - 1)[ev(x.slice, env, d - 1)]
+        if isinstance(x, ast.JoinedStr):
+            parts = []
+            for v in x.values:
+                if isinstance(v, ast.Constant):
+                    parts.append(str(v.value))
+                elif isinstance(v, ast.FormattedValue):
+                    val = ev(v.value, env, d - 1)
+                    if v.conversion in (115, 114, 97):
+                        val = {115: str, 114: repr, 97: ascii}[v.conversion](val)
+                    spec = ev(v.format_spec, env, d - 1) if v.format_spec is not None else ""
+                    parts.append(format(val, spec))
+                else:
+                    raise _Unknown("f-string part")
+            return "".join(parts)
+        if isinstance(x, (ast.ListComp, ast.SetComp, ast.GeneratorExp, ast.DictComp)):
+            res: list = []
+
+            def bind(t: ast.AST, v, env2: dict) -> None:
+                if isinstance(t, ast.Name):
+                    env2[t.id] = v
+                elif isinstance(t, (ast.Tuple, ast.List)) and not any(isinstance(q, ast.Starred) for q in t.elts):
+                    vs = list(v)
+                    if len(vs) != len(t.elts):
+                        raise _Unknown("unpacking")
+                    for q, w in zip(t.elts, vs):
+                        bind(q, w, env2)
+                else:
+                    raise _Unknown("target")
+
+            def loop(gi: int, env2: dict) -> None:
+                if gi == len(x.generators):
+                    res.append((ev(x.key, env2, d - 1), ev(x.value, env2, d - 1)) if isinstance(x, ast.DictComp) else ev(x.elt, env2, d - 1))
+                    return
+                g = x.generators[gi]
+                if g.is_async:
+                    raise _Unknown("async")
+                for item in ev(g.iter, env2, d - 1):
+                    tick()
+                    env3 = dict(env2)
+                    bind(g.target, item, env3)
+                    if all(ev(c, env3, d - 1) for c in g.ifs):
+                        loop(gi + 1, env3)
+            loop(0, dict(env))
+            return dict(res) if isinstance(x, ast.DictComp) else set(res) if isinstance(x, ast.SetComp) else res
+        if isinstance(x, ast.Call) and not any(k.arg is None for k in x.keywords):
+            args: list = []
+            for a_ in x.args:
+                if isinstance(a_, ast.Starred):
+                    args.extend(ev(a_.value, env, d - 1))
+                else:
+                    args.append(ev(a_, env, d - 1))
+            kw = {k.arg: ev(k.value, env, d - 1) for k in x.keywords}
+            f_ = None
+            if isinstance(x.func, ast.Name) and x.func.id in _PURE_BUILTINS and x.func.id not in env \
+                    and not any(isinstance(n, ast.Name) and n.id == x.func.id and isinstance(n.ctx, (ast.Store, ast.Del)) for n in ast.walk(mod.tree)) and not mod.has(x.func.id):
+                f_ = _PURE_BUILTINS[x.func.id]
+            elif isinstance(x.func, ast.Attribute) and x.func.attr == "maketrans" and isinstance(x.func.value, ast.Name) and x.func.value.id in ("str", "bytes") and not mod.has(x.func.value.id):
+                f_ = str.maketrans if x.func.value.id == "str" else bytes.maketrans
+            elif isinstance(x.func, ast.Attribute) and x.func.attr in _PURE_METHODS | {"maketrans"}:
+                recv = ev(x.func.value, env, d - 1)
+                if not isinstance(recv, (str, dict)):
+                    raise _Unknown("method of %s" % type(recv).__name__)
+                f_ = getattr(recv, x.func.attr)
+            if f_ is None:
+                raise _Unknown("call of %s" % norm(x.func))
+            if f_ is range and (len(args) > 3 or any(not isinstance(a_, int) or abs(a_) > 0x110000 for a_ in args)):
+                raise _Unknown("range")
+            r = f_(*args, **kw)
+            if not isinstance(r, _CONST_TYPES):
+                r = list(r)  # zip / enumerate / reversed / dict views / range
+                tick(len(r))
+            return r
+        raise _Unknown(type(x).__name__)
+
+    try:
+        v = ev(e, env, depth)
+    except _Unknown:
+        raise
+    except RecursionError:
+        raise
+    except Exception as exc:  # the expression would raise (or is not what it seems): not a constant
+        raise _Unknown(repr(exc)) from None
+    return v
+
+
+def char_table(mod: Module, fn: Optional[ast.AST], e: ast.expr, str_keys: bool, depth: int = 10, repo: Optional[Repo] = None) -> Optional[dict[str, str]]:
+    """the constant character -> replacement map an expression evaluates to (const_eval: a dict display, `str.maketrans(...)` of a dict, of pairs
+    made into a dict, of two strings; a dict comprehension over a constant table; a name bound once to one of these, in the function, at module
+    level or in a module of the package it is imported from), or None if that cannot be told.
+    `str_keys` False: the table is handed to str.translate, which looks characters up by code point - integer keys count, string keys are never
+    matched.  True: the table is indexed with the characters themselves (`table.get(c, c)`) - one-character string keys count, others never match."""
+    try:
+        v = const_eval(mod, fn, e, repo, None, depth)
+    except _Unknown:
+        return None
+    if not isinstance(v, dict):
+        return None
+    out: dict[str, str] = {}
+    for k, val in v.items():
+        if str_keys:
+            if not (isinstance(k, str) and len(k) == 1):
+                continue
+            if not isinstance(val, str):
+                return None
+            out[k] = val
+        else:
+            if isinstance(k, bool) or not isinstance(k, int):
+                continue
+            if not 0 <= k < 0x110000:
+                return None
+            if val is None:
+                out[chr(k)] = ""  # the character is deleted
+            elif isinstance(val, str):
+                out[chr(k)] = val
+            elif isinstance(val, int) and not isinstance(val, bool) and 0 <= val < 0x110000:
+                out[chr(k)] = chr(val)
+            else:
+                return None
+    return out
 
 
 class EscapeMap:
@@ -545,7 +745,7 @@ class EscapeMap:
         return sorted(self.pairs, key=lambda p: p[0] != "\\")
 
 
-def escape_maps(mod: Module, fn: ast.AST, min_chain: int = 2, within: Optional[list] = None) -> list[EscapeMap]:
+def escape_maps(mod: Module, fn: ast.AST, min_chain: int = 2, within: Optional[list] = None, repo: Optional[Repo] = None) -> list[EscapeMap]:
     """the escape maps in fn: maximal chains of at least `min_chain` constant str.replace calls; `<s>.translate(<table>)` with a table that
     evaluates to a constant map; `"".join(<table>.get(c, c) for c in <s>)`.  A `.translate()` whose table cannot be evaluated is an
     AnalysisError (an unknown map is neither right nor wrong).  `within`: only these statements of fn are searched.  In source order."""
@@ -564,7 +764,7 @@ def escape_maps(mod: Module, fn: ast.AST, min_chain: int = 2, within: Optional[l
             out.append(EscapeMap(n, ch, False, "chain of str.replace"))
             continue
         if isinstance(n.func, ast.Attribute) and n.func.attr == "translate" and len(n.args) == 1 and not n.keywords:
-            tab = char_table(mod, fn, n.args[0], False)
+            tab = char_table(mod, fn, n.args[0], False, repo=repo)
             if tab is None:
                 raise AnalysisError("%s: the table of %s could not be evaluated" % (mod.rel, norm(n)[:80]))
             out.append(EscapeMap(n, list(tab.items()), True, "str.translate, one pass"))
@@ -575,7 +775,7 @@ def escape_maps(mod: Module, fn: ast.AST, min_chain: int = 2, within: Optional[l
             elt = n.args[0].elt
             if isinstance(elt, ast.Call) and isinstance(elt.func, ast.Attribute) and elt.func.attr == "get" and len(elt.args) == 2 and not elt.keywords \
                     and all(isinstance(a, ast.Name) and a.id == var for a in elt.args):
-                tab = char_table(mod, fn, elt.func.value, True)
+                tab = char_table(mod, fn, elt.func.value, True, repo=repo)
                 if tab is not None:
                     out.append(EscapeMap(n, list(tab.items()), True, "per-character table lookup, one pass"))
     return out
@@ -654,14 +854,13 @@ def counter_bounds(cg: "ClassGraph", inner: list, facts_of: dict):
     return at_call
 
 
-def reachable_assuming(fn: ast.AST, target_stmt_or_expr: ast.AST, mod: Module, atom) -> bool:
-    """can control reach the statement that evaluates `target` from the entry of fn in a state where `atom(expr)` gives the truth value of
-    the conditions it knows (True / False; None = unknown)?  Branches of `if` / `while` whose test has, by Kleene's tables, the other
-    value are not taken.  (Exception edges stay: any statement of a try body may raise.)"""
+def reachable_nodes(fn: ast.AST, atom, g=None):
+    """(CFG of fn, the nodes of it control can reach from the entry in a state where `atom(expr)` gives the truth value of the conditions it
+    knows - True / False; None = unknown).  Branches of `if` / `while` whose test has, by Kleene's tables, the other value are not taken.
+    (Exception edges stay: any statement of a try body may raise.)"""
     from .cfg import CFG
 
-    g = CFG(fn)
-    tgt = g.node_of(target_stmt_or_expr, mod)
+    g = g or CFG(fn)
     seen: set[int] = set()
     stack = [g.entry]
     while stack:
@@ -669,8 +868,6 @@ def reachable_assuming(fn: ast.AST, target_stmt_or_expr: ast.AST, mod: Module, a
         if n in seen:
             continue
         seen.add(n)
-        if n == tgt:
-            return True
         node = g.nodes[n]
         verdict = None
         if node.kind == "test" and node.ast is not None:
@@ -681,7 +878,117 @@ def reachable_assuming(fn: ast.AST, target_stmt_or_expr: ast.AST, mod: Module, a
                 if (lab == "true") != verdict:
                     continue
             stack.append(m)
-    return False
+    return g, seen
+
+
+def reachable_assuming(fn: ast.AST, target_stmt_or_expr: ast.AST, mod: Module, atom) -> bool:
+    """can control reach the statement that evaluates `target` from the entry of fn in a state described by `atom` (reachable_nodes)?"""
+    g, seen = reachable_nodes(fn, atom)
+    return g.node_of(target_stmt_or_expr, mod) in seen
+
+
+# --------------------------------------------------------------------------- a visited-set kept by an object (rule a, clause ii)
+
+
+def _package_method(repo: Repo, full: str) -> Optional[tuple[Module, str, ast.FunctionDef]]:
+    """'pkg.mod.Class.meth' -> (module, 'Class.meth', def) if it is a method of a class of the analysed package"""
+    parts = full.split(".")
+    for k in range(len(parts) - 2, 0, -1):
+        mname, q = ".".join(parts[:k]), ".".join(parts[k:])
+        if mname in repo.modules and repo.modules[mname].has(q):
+            d = repo.modules[mname].defs[q]
+            if isinstance(d, (ast.FunctionDef, ast.AsyncFunctionDef)) and "." in q:
+                return repo.modules[mname], q, d
+    return None
+
+
+def _refuses_repeats(meth: ast.FunctionDef, k: int) -> Optional[str]:
+    """the method raises when its k-th argument is in a collection `self.<S>` and adds it to that collection otherwise (`if x in self.S: raise ...`
+    not inside a try, and `self.S.add(x)` / `.append(x)` / `self.S[x] = ...`), and never re-binds self.S: the name of S"""
+    ps = params(meth)
+    if len(ps) < k + 2:
+        return None
+    p = ps[k + 1]
+    if any(isinstance(n, ast.Name) and n.id == p and isinstance(n.ctx, (ast.Store, ast.Del)) for n in own_nodes(meth)):
+        return None
+    if any(isinstance(n, ast.Try) for n in own_nodes(meth)):
+        return None
+    def member_of(t: ast.AST) -> Optional[ast.Attribute]:
+        """t says `p in self.<S>`: S"""
+        if isinstance(t, ast.UnaryOp) and isinstance(t.op, ast.Not):
+            t2 = t.operand
+            want = ast.NotIn
+        else:
+            t2, want = t, ast.In
+        if isinstance(t2, ast.Compare) and len(t2.ops) == 1 and isinstance(t2.ops[0], want) and isinstance(t2.left, ast.Name) and t2.left.id == p:
+            coll = t2.comparators[0]
+            if isinstance(coll, ast.Attribute) and isinstance(coll.value, ast.Name) and coll.value.id == ps[0]:
+                return coll
+        return None
+
+    for i in own_nodes(meth):
+        if not (isinstance(i, ast.If) and i.body and isinstance(i.body[-1], ast.Raise)):
+            continue
+        # `p in S` alone decides: the test itself, or one disjunct of it (an `and` with something else would let a repeat through)
+        for t in [i.test] + (list(i.test.values) if isinstance(i.test, ast.BoolOp) and isinstance(i.test.op, ast.Or) else []):
+            coll = member_of(t)
+            if coll is None:
+                continue
+            ct = norm(coll)
+            if any(isinstance(n, (ast.Assign, ast.AugAssign, ast.AnnAssign, ast.Delete)) and any(norm(x) == ct for x in (n.targets if isinstance(n, (ast.Assign, ast.Delete)) else [n.target])) for n in own_nodes(meth)):
+                continue
+            for c in own_nodes(meth):
+                if isinstance(c, ast.Call) and isinstance(c.func, ast.Attribute) and c.func.attr in ("add", "append") and norm(c.func.value) == ct and len(c.args) == 1 \
+                        and isinstance(c.args[0], ast.Name) and c.args[0].id == p:
+                    return ct
+                if isinstance(c, ast.Subscript) and isinstance(c.ctx, ast.Store) and norm(c.value) == ct and isinstance(c.slice, ast.Name) and c.slice.id == p:
+                    return ct
+    return None
+
+
+def visited_guard_object(repo: Repo, mod: Module, fn: ast.AST, loop: ast.While, cursor: str) -> Optional[str]:
+    """clause (ii) of C03.a when the visited-set lives in an object: inside the loop (and inside no `try` of it) the cursor - or the
+    temporary it is assigned from - is handed to a method, of a class of the package, that raises if it has been handed the same node before
+    and remembers it otherwise (_refuses_repeats); the object is made outside the loop.  The raise leaves the loop as `if x in seen: raise` did."""
+    curs = {cursor}
+    for a in ast.walk(loop):
+        if isinstance(a, ast.Assign) and any(isinstance(t, ast.Name) and t.id == cursor for t in a.targets):
+            curs |= {n.id for n in ast.walk(a.value) if isinstance(n, ast.Name) and isinstance(n.ctx, ast.Load)}
+    for c in ast.walk(loop):
+        if not (isinstance(c, ast.Call) and isinstance(c.func, ast.Attribute) and not c.keywords and c.args and not any(isinstance(a, ast.Starred) for a in c.args)):
+            continue
+        hits = [k for k, a in enumerate(c.args) if isinstance(a, ast.Name) and a.id in curs]
+        if not hits:
+            continue
+        recv = c.func.value
+        if isinstance(recv, ast.Name):
+            made_inside = any(isinstance(n, ast.Name) and n.id == recv.id and isinstance(n.ctx, (ast.Store, ast.Del)) for n in ast.walk(loop))
+        elif isinstance(recv, ast.Attribute) and isinstance(recv.value, ast.Name):
+            rt = norm(recv)
+            made_inside = any(isinstance(n, ast.Attribute) and isinstance(n.ctx, (ast.Store, ast.Del)) and norm(n) == rt for n in ast.walk(loop))
+        else:
+            continue
+        if made_inside:
+            continue
+        in_try = False
+        for p in mod.parents(c):
+            if p is loop:
+                break
+            if isinstance(p, ast.Try):
+                in_try = True
+        if in_try:
+            continue
+        callees = repo.typed.callees(mod.name, c)
+        if not callees:
+            continue
+        for k in hits:
+            colls = []
+            for full in callees:
+                pm = _package_method(repo, full)
+                colls.append(_refuses_repeats(pm[2], k) if pm is not None else None)
+            if colls and all(x is not None for x in colls):
+                return "visited-set kept by %s: %s raises on a node it was handed before and remembers every node it is handed (%s)" % (norm(recv), norm(c.func), colls[0])
+    return None
 
 
 def validators_of(mod: Module, fn: ast.AST, call: ast.Call, arg: Optional[ast.expr], sites_of, depth: int = 3, _seen: frozenset = frozenset(), accept=None) -> Optional[set[str]]:
